@@ -802,7 +802,9 @@ class RewriteRuleSet:
                         call_node.inputs, original_nodes, delta.match.outputs
                     )
 
-                    used_domains: set[str] = {node.domain for node in original_nodes}
+                    # The function body also holds the Constant nodes (default domain) that
+                    # _copy_for_function created for constant inputs that are not call inputs.
+                    used_domains: set[str] = {node.domain for node in nodes}
                     # Subgraphs (If/Loop bodies) carry no opset imports of their own: use the model's.
                     parent_opset_imports = (
                         graph_or_function.opset_imports
